@@ -9,13 +9,16 @@ import FitProofs.EncodeFile
 import FitProofs.DecodeAccepts
 import FitProps.C04
 import FitProofs.IntegFrame
+import FitProofs.DecodeEncode
 /-!
   C05 — Encode emits a well-formed, self-describing FIT stream.
 
   Layers: the frame (`encode_frame`, `encode_residue_zero`, `header_declares_data_size`: header with the
   data size of the records that follow, header CRC, file CRC; the values written back into the File);
   the records (`encode_one_self_describing`, `encode_group_self_describing`: a definition followed by data
-  records of exactly the declared sizes, `encoder_sizes_multiple`, `encoder_definitions_validate`);
+  records of exactly the declared sizes, `encoder_sizes_multiple`, `encoder_definitions_validate`;
+  `definition_carries_exactly_the_valid_fields`, `array_with_elements_is_carried`,
+  `group_definition_carries_every_valid_field`: which fields the definition names);
   the whole output (`encode_wellformed`); and what the decoder's entry points make of it
   (`decode_accepts_encode` on C06's domain, `encode_passes_integrity_any` for every File with a
   legal header).
@@ -337,5 +340,76 @@ theorem encode_passes_integrity_any (P : Profile) (arch : Endian) (f f' : FileSt
             omega
           rw [← h1, finishEncode_frame f body hs ht hblen]
           exact integ_accepts_frame P o _ g _ _ body tail stop hp.1 hp.2 hblen
+
+/-! ### which fields a definition names -/
+
+/-- `getEncodeMesgDef`: the definition written for a message names the lookup entry of a struct
+    position exactly when the message's value there is valid (a scalar different from the
+    all-invalid message's, an array or string with at least one element) -/
+theorem definition_carries_exactly_the_valid_fields (pm : PMsg) (m : Msg) (fs : List PField)
+    (h : encodeMesgDef pm m = some fs) (i : Nat) (hi : i < m.vals.length) :
+    (∃ pf ∈ fs, pf.sindex = i) ↔ isInvalidVal pm i (m.vals.getD i (.u 0)) = false := by
+  obtain ⟨h1, h2⟩ := encodeMesgDef_spec pm m fs h
+  constructor
+  · rintro ⟨pf, hp, rfl⟩
+    exact (h1 pf hp).2
+  · exact h2 i hi
+
+/-- an array counts as set as soon as it has an element — whatever the elements are, so an invalid
+    first element does not hide the valid ones behind it -/
+theorem array_with_elements_is_carried (pm : PMsg) (m : Msg) (fs : List PField)
+    (h : encodeMesgDef pm m = some fs) (i : Nat) (hi : i < m.vals.length) (x : Nat) (xs : List Nat)
+    (hv : m.vals.getD i (.u 0) = .us (some (x :: xs))) :
+    ∃ pf ∈ fs, pf.sindex = i := by
+  rw [definition_carries_exactly_the_valid_fields pm m fs h i hi, hv]
+  rfl
+
+/-- a slice of messages shares one definition: it names every field that is valid in any of them -/
+theorem group_definition_carries_every_valid_field (pm : PMsg) (hmw : msgWF pm = true) (ms : List Msg) (defs : List (List PField))
+    (h : ms.mapM (encodeMesgDef pm) = some defs) (m : Msg) (hm : m ∈ ms) (i : Nat) (hi : i < m.vals.length)
+    (hv : isInvalidVal pm i (m.vals.getD i (.u 0)) = false) :
+    ∃ pf, fieldBySindex pm i = some pf ∧
+      ∃ y ∈ defs.flatten.foldl (fun acc pf => insertField pf acc) [], y.num = pf.num := by
+  obtain ⟨fs, hfs, hd⟩ : ∃ fs, encodeMesgDef pm m = some fs ∧ fs ∈ defs := by
+    induction ms generalizing defs with
+    | nil => cases hm
+    | cons a as ih =>
+      rw [List.mapM_cons] at h
+      cases ha : encodeMesgDef pm a with
+      | none => rw [ha] at h; cases h
+      | some fa =>
+        rw [ha] at h
+        cases hr : as.mapM (encodeMesgDef pm) with
+        | none => rw [hr] at h; cases h
+        | some dr =>
+          rw [hr] at h
+          cases h
+          cases hm with
+          | head => exact ⟨fa, ha, List.mem_cons_self ..⟩
+          | tail _ hm' =>
+            obtain ⟨fs, h1, h2⟩ := ih dr hr hm'
+            exact ⟨fs, h1, List.mem_cons_of_mem _ h2⟩
+  obtain ⟨pf, hp, hpi⟩ := (definition_carries_exactly_the_valid_fields pm m fs hfs i hi).mpr hv
+  have hfind : fieldBySindex pm i = some pf := by
+    subst hpi
+    exact fieldBySindex_of_mem pm hmw pf ((encodeMesgDef_mem pm m fs hfs).1 pf hp)
+  refine ⟨pf, hfind, ?_⟩
+  exact foldl_insertField_has defs.flatten [] pf (List.mem_flatten.mpr ⟨fs, hd, hp⟩)
+/-- a two-field message type for the example below -/
+def demoMsg : PMsg where
+  num := 20
+  known := true
+  inFields := true
+  hasType := true
+  hasCtor := true
+  fields := [⟨0, 3, 2, 1⟩, ⟨1, 7, 34, 5⟩]
+  layout := []
+  fnames := []
+  invalid := [Val.u 255, Val.us none]
+
+/-- non-vacuity: the array starts with the invalid value 255 and goes on with a valid element — the
+    definition names both fields -/
+example : encodeMesgDef demoMsg ⟨20, [Val.u 70, Val.us (some [255, 3])]⟩ = some [⟨0, 3, 2, 1⟩, ⟨1, 7, 34, 5⟩] := by
+  decide
 
 end Fit.Props.C05
